@@ -25,7 +25,8 @@ RULE = ("files: per format (hex, srec, ti_txt, wdc, uf2, elf32/64 le/be, amiga, 
         "get_range/write*/print* on an atom table (decimal/0x/h-suffix/sign/overflow/empty/garbage) composed with separators, "
         "random strings, ranges at 2^32-k, 12 CPUs with 1/2/4 bytes per address; page walk over 7 pages incl. 0xffff0000; "
         "process level: the sanitised naken_util on mutated files (+ -disasm), every command of the table x operand classes x "
-        "every cpu_list name, option lines with missing/garbage/huge values, EOF without quit; each with a time limit.  "
+        "every cpu_list name, option lines with missing/garbage/huge values, EOF without quit, every CPU's -disasm on random / "
+        "all-0xff / all-zero / prefix-byte files; each with a time and an output limit.  "
         "distinct = distinct protocol lines / process inputs; non-trivial = the file was loaded (return 0 and bytes stored) or "
         "the command acted (wrote/printed/returned a pointer).")
 MODELLED = ("fileio/read_uf2.cpp, read_ti_txt.cpp, read_amiga.cpp, read_elf.cpp, read_macho.cpp, FileIo::get_int16/32/64, "
@@ -130,8 +131,8 @@ def file_cases(ctx):
         return ctx.notes["files"]
     rng = ctx.rng
     cases = []
-    nseed = sz(ctx, 3, 10)
-    limit = sz(ctx, 130, 400)
+    nseed = sz(ctx, 3, 24)
+    limit = sz(ctx, 130, 500)
     for fmt in G.FMTS:
         for i in range(nseed):
             seed = G.BUILDERS[fmt](rng)
@@ -181,8 +182,8 @@ def correspondence(ctx, corr):
     for fmt, ext, data, label in cases[::sz(ctx, 9, 3)]:
         lines.append(srd_line(ctx, "auto", ext, data))
         tags.append(("sniff", ext, "window:" not in label))
-    cl = G.cmd_lines(rng, sz(ctx, 4000, 30000))
-    wl = G.walk_lines(rng, sz(ctx, 400, 3000))
+    cl = G.cmd_lines(rng, sz(ctx, 4000, 80000))
+    wl = G.walk_lines(rng, sz(ctx, 400, 6000))
     for l in cl + wl:
         lines.append(l)
         tags.append(("cmd", l.split(" ")[0], True))
@@ -368,7 +369,7 @@ def oracle(ctx, orc, focus=None):
             stats["names-ok"] += 1
 
     # 3. process level: mutated files
-    per_fmt = sz(ctx, 20, 80)
+    per_fmt = sz(ctx, 20, 200)
     chosen = []
     by = collections.defaultdict(list)
     for c in cases:
@@ -423,7 +424,7 @@ def oracle(ctx, orc, focus=None):
     stats["cpus"] = len(cpus)
     jobs, scripts = [], {}
     for cpu in cpus:
-        for k in range(sz(ctx, 2, 5)):
+        for k in range(sz(ctx, 2, 10)):
             sc = command_script(rng, sz(ctx, 6, 12))
             eof_only = (k == 0 and rng.random() < 0.3)
             text = "\n".join(sc) + ("\n" if eof_only else "\nquit\n")
@@ -475,6 +476,34 @@ def oracle(ctx, orc, focus=None):
                  "%s rc=%d %s" % (c, r["rc"], r["err"][-300:]), "naken_util died / hung on a command line")
         else:
             stats["proc-opt rc=%d" % r["rc"]] += 1
+
+    # 5b. every CPU's disassembler on arbitrary bytes (no model: sanitised exploration, named partial in the evidence)
+    jobs, bfiles = [], []
+    for k in range(sz(ctx, 2, 8)):
+        pth = os.path.join(tmp, "rnd%d.bin" % k)
+        style = k % 4
+        if style == 0:
+            d = bytes(rng.randrange(256) for _ in range(512))
+        elif style == 1:
+            d = bytes(rng.choice([0, 0xff, 0x80, 0x7f, 0x3d, 0x3e, 0x3f, rng.randrange(256)]) for _ in range(512))
+        elif style == 2:
+            d = bytes([0xff] * 256)
+        else:
+            d = bytes(256)
+        with open(pth, "wb") as f:
+            f.write(d)
+        bfiles.append(pth)
+    for cpu in cpus:
+        for k, pth in enumerate(bfiles):
+            jobs.append(((cpu, k), util, ["-" + cpu, "-bin", pth, "-disasm"], "", 20, tmp))
+    for (cpu, k), r in run_many(jobs).items():
+        orc["cases"] += 1
+        c = classify(r)
+        if c:
+            fail(orc, "C17:proc:disasm-bytes:%s:%s" % (cpu, c), "naken_util -%s -bin <file> -disasm  [bytes: %s]" % (cpu, open(bfiles[k], "rb").read()[:64].hex()),
+                 "exit status 0", "%s rc=%d %s" % (c, r["rc"], r["err"][-300:]), "naken_util died / hung disassembling arbitrary bytes")
+        else:
+            stats["proc-disasm-bytes-ok"] += 1
 
     # 6. known finding: a disassembly range that reaches 0xffffffff (per-CPU `while (start <= end)` with uint32_t)
     probe = [("6502", "disasm 0xfffffff8-0xffffffff")] if ctx.quick() else [("6502", "disasm 0xfffffff8-0xffffffff"), ("avr8", "disasm 0x7ffffff8-0x7fffffff"),
